@@ -411,6 +411,95 @@ fn main() {
                 });
                 format!("{{\"close_result\":\"{}\"}}", out)
             }
+            // reader <dst_len> <l1> <l2> <l3>: one read of the chained-buffer reader over three chunks
+            "reader" => {
+                use std::io::Read;
+                let (d, ls) = (nums[0] as usize, [nums[1] as usize, nums[2] as usize, nums[3] as usize]);
+                let mut next = 1u8;
+                let mut all = Vec::new();
+                let chunks: Vec<Bytes> = ls
+                    .iter()
+                    .map(|l| {
+                        let v: Vec<u8> = (0..*l).map(|_| { let b = next; next = next.wrapping_add(1); b }).collect();
+                        all.extend_from_slice(&v);
+                        Bytes::from(v)
+                    })
+                    .collect();
+                let mut rd = VByteReader::new(chunks);
+                let mut dst = vec![0u8; d];
+                let n = rd.read(&mut dst).unwrap();
+                let want = d.min(all.len());
+                let ok = n == want && dst[..n] == all[..n];
+                format!("{{\"n\":{},\"prefix_ok\":{}}}", n, ok)
+            }
+            // setsize <encoder 1|0> <peer max-frame-size>
+            "setsize" => {
+                let (a, _b) = tokio::io::duplex(64);
+                let mut t = fe2o3_amqp::transport::Transport::<_, fe2o3_amqp::frames::amqp::Frame>::bind(a, 512, None);
+                if nums[0] == 1 {
+                    t.set_encoder_max_frame_size(nums[1] as usize);
+                    let _ = frame_encoder(t.encoder_max_frame_size());
+                } else {
+                    t.set_decoder_max_frame_size(nums[1] as usize);
+                }
+                "{\"panic\":false}".to_string()
+            }
+            // chunks <target encoded length>: send one Open frame whose encoding is exactly that long
+            // through a real Transport (max-frame-size 512) and look at the frames on the wire
+            "chunks" => {
+                use bytes::BytesMut;
+                use fe2o3_amqp::frames::amqp::{Frame, FrameBody};
+                use fe2o3_amqp_types::performatives::{ChannelMax, MaxFrameSize, Open};
+                use futures_util::SinkExt;
+                use tokio::io::AsyncReadExt;
+                use tokio_util::codec::Encoder;
+                let target = nums[0] as usize;
+                let mk = |n: usize| Open {
+                    container_id: "x".repeat(n),
+                    hostname: None,
+                    max_frame_size: MaxFrameSize(512),
+                    channel_max: ChannelMax(10),
+                    idle_time_out: None,
+                    outgoing_locales: None,
+                    incoming_locales: None,
+                    offered_capabilities: None,
+                    desired_capabilities: None,
+                    properties: None,
+                };
+                let mut n_id = None;
+                for n in 0..600 {
+                    let mut b = BytesMut::new();
+                    frame_encoder(508).encode(Frame::new(0u16, FrameBody::Open(mk(n))), &mut b).unwrap();
+                    if b.len() == target {
+                        n_id = Some(n);
+                        break;
+                    }
+                }
+                let n_id = n_id.expect("no container-id length gives the requested encoding length");
+                let rt = tokio::runtime::Builder::new_current_thread().build().unwrap();
+                rt.block_on(async move {
+                    let (a, mut b) = tokio::io::duplex(1 << 16);
+                    let mut t = fe2o3_amqp::transport::Transport::<_, Frame>::bind(a, 512, None);
+                    t.send(Frame::new(0u16, FrameBody::Open(mk(n_id)))).await.unwrap();
+                    drop(t);
+                    let mut wire = Vec::new();
+                    b.read_to_end(&mut wire).await.unwrap();
+                    let (mut off, mut empty, mut over, mut total, mut frames) = (0usize, 0, 0, 0usize, 0);
+                    while off + 4 <= wire.len() {
+                        let sz = u32::from_be_bytes([wire[off], wire[off + 1], wire[off + 2], wire[off + 3]]) as usize;
+                        frames += 1;
+                        if sz <= 4 {
+                            empty += 1;
+                        }
+                        if sz > 512 {
+                            over += 1;
+                        }
+                        total += sz.saturating_sub(4);
+                        off += sz.max(4);
+                    }
+                    format!("{{\"frames\":{},\"empty_chunks\":{},\"oversized\":{},\"total\":{},\"encoded\":{}}}", frames, empty, over, total, target)
+                })
+            }
             // wakeup <pos> <credit>: one waiter with no credit, one grant of <credit> placed
             //   pos 0: before the first poll, 1: at the cfg schedule point (between the failed credit
             //   check and the creation of the wait future), 2: after the first poll returned Pending;
